@@ -12,7 +12,7 @@ use re::geom::{vertex, Tri, Vertex};
 use re::math::angle::{degs, rads, turns};
 use re::math::mat::{orthographic, perspective, viewport, Mat4x4};
 use re::math::point::{pt2, pt3, Point3};
-use re::math::vec::{vec3, Vec3};
+use re::math::vec::{vec2, vec3, Vec3};
 use re::render::cam::{Camera, FirstPerson, Mode as _};
 use re::render::ctx::Context;
 use re::render::raster::Frag;
@@ -92,7 +92,11 @@ fn perspective_case(rng: &mut Rng, rep: &mut Report) {
         let ndc_z = (fard + nd) / (fard - nd) - 2.0 * fard * nd / ((fard - nd) * zd);
         let (m_near, m_far) = if zd > 0.0 { (ndc_z + 1.0, 1.0 - ndc_z) } else { (-1.0, 1.0) };
         let margins = [m_near.min((zd - nd) / nd), m_far.min((fard - zd) / fard), (zd / fd - xd.abs()) / (zz / fd), (zd / (fd * ad) - yd.abs()) / (zz / (fd * ad))];
-        if margins[2..].iter().any(|m| m.abs() < 1e-4) || m_near.abs() < 2e-5 || m_far.abs() < 2e-5 {
+        // the rounding of e22 = (f+n)/(f−n) and e23 moves NDC z by about
+        // 1.2e-7·e22 (2e-4 when far/near = 1.001): the band follows e22, as
+        // the tolerance of the near/far check above does
+        let zband = 2e-5 + 4e-7 * (1.0 + (fard + nd) / (fard - nd));
+        if margins[2..].iter().any(|m| m.abs() < 1e-4) || m_near.abs() < zband || m_far.abs() < zband {
             rep.skip("probe.within_1e-4_of_a_face");
             continue;
         }
@@ -227,7 +231,15 @@ fn first_person_case(rng: &mut Rng, rep: &mut Report) {
             if geo::len3(d.map(|x| x as f64)) < 0.3 {
                 return;
             }
-            let t = [pos[0] + d[0], pos[1] + d[1], pos[2] + d[2]];
+            let mut t = [pos[0] + d[0], pos[1] + d[1], pos[2] + d[2]];
+            // exact axis alignment and ±1 ulp around it are made in the
+            // target's own coordinates (pos + 1e-45 is just pos)
+            if d[2] == 0.0 || d[2].abs() < 1e-30 {
+                t[2] = rng.ulp_nudge(pos[2]);
+            }
+            if d[0] == 0.0 && rng.bool() {
+                t[0] = rng.ulp_nudge(pos[0]);
+            }
             hs.f32s(&t);
             target = Some(t);
             if let Err(e) = catch(|| fp.look_at(vec3(t[0], t[1], t[2]))) {
@@ -339,10 +351,18 @@ fn camera_case(rng: &mut Rng, rep: &mut Report, idx: u64) {
     let partly_outside = rng.chance(1, 3);
     let (l, t) = (rng.below(bw as u64 / 2) as u32, rng.below(bh as u64 / 2) as u32);
     let (r, b) = if partly_outside { (l + 4 + rng.below(2 * bw as u64) as u32, t + 4 + rng.below(2 * bh as u64) as u32) } else { (l + 4 + rng.below((bw - l - 4) as u64 + 1) as u32, t + 4 + rng.below((bh - t - 4) as u64 + 1) as u32) };
+    let vp_form = rng.below(5);
+    // open-ended spellings: (l.., t..) and (..r, ..b)
+    let (l, t, r, b) = match vp_form {
+        3 => (l, t, bw, bh),
+        4 => (0, 0, r, b),
+        _ => (l, t, r, b),
+    };
     let (il, it, ir, ib) = (l.min(bw), t.min(bh), r.min(bw), b.min(bh));
     if ir <= il || ib <= it {
         return;
     }
+    rep.count(&format!("camera.viewport_form_{vp_form}"));
     let ortho = rng.chance(1, 4);
     let f = rng.log_f32(0.3, 4.0);
     let near = rng.log_f32(0.1, 2.0);
@@ -367,7 +387,15 @@ fn camera_case(rng: &mut Rng, rep: &mut Report, idx: u64) {
     fp.rotate_to(degs(azd), degs(altd));
     let half = [rng.f32_in(2.0, 20.0), rng.f32_in(2.0, 20.0)];
     let built = catch(|| {
-        let cam = Camera::new((bw, bh)).viewport((l..r, t..b));
+        let cam = Camera::new((bw, bh));
+        let cam = match vp_form {
+            0 => cam.viewport((l..r, t..b)),
+            1 => cam.viewport((l..=r - 1, t..=b - 1)),
+            2 => cam.viewport(vec2(l, t)..vec2(r, b)),
+            // open-ended forms reach to the frame's edge
+            3 => cam.viewport((l.., t..)),
+            _ => cam.viewport((..r, ..b)),
+        };
         let cam = if ortho { cam.orthographic(pt3(-half[0], -half[1], near)..pt3(half[0], half[1], far)) } else { cam.perspective(f, near..far) };
         cam.mode(fp)
     });
@@ -378,7 +406,7 @@ fn camera_case(rng: &mut Rng, rep: &mut Report, idx: u64) {
             return;
         }
     };
-    if partly_outside {
+    if r > bw || b > bh {
         rep.count("camera.viewport_partly_outside_frame");
     }
     // dims = the intersection
@@ -475,6 +503,58 @@ fn camera_case(rng: &mut Rng, rep: &mut Report, idx: u64) {
         return;
     }
     rep.count("camera.end_to_end_renders");
+
+    // Confinement: a quad covering far more than the view volume's cross
+    // section at this depth must light exactly the intersection rectangle.
+    let big = |sx: f64, sy: f64| -> [f32; 3] {
+        let (vx, vy) = if ortho { (sx * 3.0 * half[0] as f64, sy * 3.0 * half[1] as f64) } else { (sx * 3.0 * depth / f as f64, sy * 3.0 * depth / (f as f64 * wv / hv)) };
+        let w = geo::apply4(&v2w, [vx, vy, depth, 1.0]);
+        [w[0] as f32, w[1] as f32, w[2] as f32]
+    };
+    let quad = [big(-1.0, -1.0), big(1.0, -1.0), big(1.0, 1.0), big(-1.0, 1.0)];
+    let verts: Vec<Vertex<Point3<re::render::Model>, f32>> = quad.iter().map(|p| vertex(pt3(p[0], p[1], p[2]), 1.0)).collect();
+    let tris = [Tri([0usize, 1, 2]), Tri([0usize, 2, 3])];
+    let mut cv = Canvas::new(bw, bh, (0, 0, bw, bh), |_, _| 0x1111_1111, |_, _| 0.0);
+    let res = catch(|| {
+        let mut fb = Framebuf { color_buf: &mut cv.col, depth_buf: &mut cv.dep };
+        cam.render(&tris, &verts, &to_world, &shader, (), &mut fb, &ctx);
+    });
+    if let Err(e) = res {
+        rep.violation("cam.render_panicked", format!("Camera::render panicked on a quad covering the whole view: {e}"), cj());
+        return;
+    }
+    // The two triangles of the quad share the diagonal NDC y = x, and each is
+    // clipped to the viewport rectangle and re-triangulated as a fan: every
+    // vertex of the pieces is a corner of the rectangle, so every internal
+    // edge lies on one of its two diagonals. Pixel centres on those (exactly
+    // on them when the rectangle's sides are commensurable) are inside C04's
+    // tolerance band and may be left out; nothing else may.
+    let (fl, ft, fr, fb) = (il as f64, it as f64, ir as f64, ib as f64);
+    let mut on_diagonal = 0u64;
+    for y in 0..bh {
+        for x in 0..bw {
+            let lit = cv.col[[x, y]] != 0x1111_1111;
+            let inside = x >= il && x < ir && y >= it && y < ib;
+            if lit && !inside {
+                rep.violation("cam.drew_outside_viewport_intersection", format!("a quad covering the whole view lit pixel ({x},{y}) outside the intersection ({il},{it})..({ir},{ib})"), cj());
+                return;
+            }
+            if !lit && inside {
+                let c = (x as f64 + 0.5, y as f64 + 0.5);
+                let d = geo::seg_dist(c, (fl, ft), (fr, fb)).min(geo::seg_dist(c, (fr, ft), (fl, fb)));
+                if d < 0.02 {
+                    on_diagonal += 1;
+                } else {
+                    rep.violation("cam.viewport_not_filled", format!("a quad covering the whole view left pixel ({x},{y}) of the intersection ({il},{it})..({ir},{ib}) undrawn ({d:.3} px from the nearest diagonal)"), cj());
+                    return;
+                }
+            }
+        }
+    }
+    if on_diagonal > 0 {
+        rep.add("camera.flood_pixels_left_out_on_a_fan_diagonal(allowed band)", on_diagonal);
+    }
+    rep.count("camera.confinement_floods");
 }
 
 pub fn run(cfg: &Cfg, rep: &mut Report) {
@@ -500,6 +580,10 @@ pub fn run(cfg: &Cfg, rep: &mut Report) {
     rep.floor("camera.matrix_probes", 20_000);
     rep.floor("camera.end_to_end_renders", 5_000);
     rep.floor("camera.viewport_partly_outside_frame", 5_000);
+    rep.floor("camera.confinement_floods", 5_000);
+    for k in 0..5 {
+        rep.floor(&format!("camera.viewport_form_{k}"), 2_000);
+    }
     let _ = (rads(0.0), turns(0.0));
     let _: Option<Vec3> = None;
 }
